@@ -21,6 +21,7 @@ PROFILE = {
     "max_dur": 64,
     "multi_call": (1, 2),
     "classifier_time": 0.25,
+    "record_failure_time": 0.3,
 }
 
 
